@@ -253,6 +253,23 @@ def else_flip(src, seed=0):
     return ast.unparse(tree) + "\n"
 
 
+def polarity_flip(src, seed=0):
+    """`if c: A else: B` -> `if not c: B else: A` (and `if not c: ...` ->
+    `if c: ...`) for two-armed conditionals that are not elif chains."""
+    rng = random.Random(seed + 37)
+    tree = ast.parse(src)
+    for n in ast.walk(tree):
+        if isinstance(n, ast.If) and n.orelse and not (
+                len(n.orelse) == 1 and isinstance(n.orelse[0], ast.If)) and rng.random() < 0.8:
+            if isinstance(n.test, ast.UnaryOp) and isinstance(n.test.op, ast.Not):
+                n.test = n.test.operand
+            else:
+                n.test = ast.UnaryOp(op=ast.Not(), operand=n.test)
+            n.body, n.orelse = n.orelse, n.body
+    ast.fix_missing_locations(tree)
+    return ast.unparse(tree) + "\n"
+
+
 TWINS = {
     "unparse": lambda src, seed: unparse_roundtrip(src),
     "docstrings": lambda src, seed: add_docstrings(src),
@@ -261,4 +278,5 @@ TWINS = {
     "noise": lambda src, seed: insert_noise(src, seed),
     "swap": lambda src, seed: swap_independent(src, seed),
     "elseflip": lambda src, seed: else_flip(src, seed),
+    "polarity": lambda src, seed: polarity_flip(src, seed),
 }
